@@ -2,5 +2,26 @@
 
 package presence
 
+import (
+	"time"
+
+	"github.com/emitter-io/emitter/internal/message"
+)
+
 // VerifQueued is the number of presence notifications not yet dispatched.
 func (s *Service) VerifQueued() int { return len(s.queue) }
+
+// VerifBarrier returns once every notification queued before the call has been dispatched:
+// it queues two markers nobody is subscribed to; the single dispatcher goroutine takes the
+// second one only after it has finished the first, hence everything queued earlier.
+func (s *Service) VerifBarrier() {
+	marker := func() *Notification {
+		return &Notification{Ssid: message.Ssid{0xFFFFFFFF, 0xFFFFFFFE, 0xFFFFFFFD}, Event: EventTypeStatus}
+	}
+	s.queue <- marker()
+	s.queue <- marker()
+	deadline := time.Now().Add(3 * time.Second)
+	for len(s.queue) > 0 && time.Now().Before(deadline) {
+		time.Sleep(50 * time.Microsecond)
+	}
+}
